@@ -82,6 +82,12 @@ impl<E: FieldElement, H: ElementHasher<BaseField = E::BaseField>> VerifierChanne
             .map_err(|err| VerifierError::ProofDeserializationError(err.to_string()))?;
 
         // --- parse trace and constraint queries -------------------------------------------------
+        // the number of unique queries comes from the proof; query parsing requires at least one
+        if num_unique_queries == 0 {
+            return Err(VerifierError::ProofDeserializationError(
+                "number of unique queries must be greater than zero".to_string(),
+            ));
+        }
         let trace_queries = TraceQueries::new(trace_queries, air, num_unique_queries as usize)?;
         let constraint_queries =
             ConstraintQueries::new(constraint_queries, air, num_unique_queries as usize)?;
